@@ -88,7 +88,7 @@ func (w *W) buildCtx(c *scen.CtxSpec) context.Context {
 	for _, kv := range c.Vals {
 		ctx = context.WithValue(ctx, w.ctxKey(kv.Key), w.value(&kv.V))
 	}
-	if w.sch != nil {
+	if w.inTasks() {
 		return &simCtx{ctx, w}
 	}
 	return ctx
@@ -135,7 +135,7 @@ func (w *W) value(a *scen.Arg) any {
 		if v, ok := w.shared[a.Ref]; ok {
 			return v
 		}
-		if w.sch != nil {
+		if w.inTasks() {
 			// tasks never write the table (it would be a harness data race in the race world)
 			b := *a
 			b.Ref = 0
